@@ -9,6 +9,7 @@ import (
 	ingestclient "github.com/ipni/go-libipni/ingest/client"
 	"github.com/ipni/go-libipni/ingest/model"
 	"github.com/libp2p/go-libp2p/core/peer"
+	"github.com/libp2p/go-libp2p/core/record"
 	"github.com/multiformats/go-multihash"
 
 	"verif/sim/simkit"
@@ -68,6 +69,18 @@ func (a *adminEndpoint) ServeHTTP(w http.ResponseWriter, req *http.Request) {
 	a.accepted = true
 	w.WriteHeader(http.StatusOK)
 }
+
+// foreignTyped is a record sealed for the right domain but with a payload
+// type other than the one the reader expects.
+type foreignTyped struct {
+	domain  string
+	payload []byte
+}
+
+func (f *foreignTyped) Domain() string                 { return f.domain }
+func (f *foreignTyped) Codec() []byte                  { return []byte("some-other-payload-type") }
+func (f *foreignTyped) MarshalRecord() ([]byte, error) { return f.payload, nil }
+func (f *foreignTyped) UnmarshalRecord(b []byte) error { f.payload = b; return nil }
 
 type c18Req struct {
 	ingest   bool
@@ -131,6 +144,28 @@ func c18Check(r *simkit.Run, ep *adminEndpoint, q c18Req, cerr error, altered, s
 	}
 }
 
+// retype opens the sealed request and seals its payload again, with the
+// signer's key and for the same domain, under another payload type.
+func retype(body []byte, q c18Req) []byte {
+	domain := model.IngestRequestEnvelopeDomain
+	if !q.ingest {
+		domain = peer.PeerRecordEnvelopeDomain
+	}
+	env, err := record.UnmarshalEnvelope(body)
+	if err != nil {
+		return body
+	}
+	out, err := record.Seal(&foreignTyped{domain: domain, payload: env.RawPayload}, q.signer.Priv)
+	if err != nil {
+		return body
+	}
+	b, err := out.Marshal()
+	if err != nil {
+		return body
+	}
+	return b
+}
+
 func kindName(ingest bool) string {
 	if ingest {
 		return "ingest"
@@ -189,6 +224,8 @@ func runC18(r *simkit.Run, c Cfg) {
 			}
 			exchange(t, q, func(body []byte) []byte { return append(body, 0) }, false, "one byte appended")
 			exchange(t, q, nil, true, "replayed to the other endpoint")
+			// same domain, same signer, same payload bytes, another payload type
+			exchange(t, q, func(body []byte) []byte { return retype(body, q) }, false, "re-sealed by the provider with another payload type")
 			for _, kt := range KeyTypes {
 				bq := q
 				bq.signer = KeyedIdentity(kt, 2, "V2")
@@ -214,6 +251,8 @@ func runC18(r *simkit.Run, c Cfg) {
 					exchange(t, q, func(b []byte) []byte { return append(b, extra...) }, false, "bytes appended")
 				case 3:
 					exchange(t, q, nil, true, "replayed to the other endpoint")
+				case 4:
+					exchange(t, q, func(b []byte) []byte { return retype(b, q) }, false, "re-sealed with another payload type")
 				default:
 					exchange(t, q, nil, false, "untouched")
 				}
